@@ -642,7 +642,7 @@ def manualParsers : List (String × List String) := [
 ]
 
 /-- `command.Parse`: lower-cased command name ↦ parse function and its extra arguments -/
-def dispatch : List (String × String × List String) := [
+def dispatch : List (String × String × List Int) := [
   ("command", "server.ParseOK", []),
   ("config", "server.ParseConfig", []),
   ("dbsize", "server.ParseDBSize", []),
@@ -655,12 +655,12 @@ def dispatch : List (String × String × List String) := [
   ("select", "conn.ParseSelect", []),
   ("del", "key.ParseDel", []),
   ("exists", "key.ParseExists", []),
-  ("expire", "key.ParseExpire", ["1000"]),
-  ("expireat", "key.ParseExpireAt", ["1000"]),
+  ("expire", "key.ParseExpire", [1000]),
+  ("expireat", "key.ParseExpireAt", [1000]),
   ("keys", "key.ParseKeys", []),
   ("persist", "key.ParsePersist", []),
-  ("pexpire", "key.ParseExpire", ["1"]),
-  ("pexpireat", "key.ParseExpireAt", ["1"]),
+  ("pexpire", "key.ParseExpire", [1]),
+  ("pexpireat", "key.ParseExpireAt", [1]),
   ("randomkey", "key.ParseRandomKey", []),
   ("rename", "key.ParseRename", []),
   ("renamenx", "key.ParseRenameNX", []),
@@ -679,18 +679,18 @@ def dispatch : List (String × String × List String) := [
   ("rpop", "list.ParseRPop", []),
   ("rpoplpush", "list.ParseRPopLPush", []),
   ("rpush", "list.ParseRPush", []),
-  ("decr", "string.ParseIncr", ["-1"]),
-  ("decrby", "string.ParseIncrBy", ["-1"]),
+  ("decr", "string.ParseIncr", [(-1)]),
+  ("decrby", "string.ParseIncrBy", [(-1)]),
   ("get", "string.ParseGet", []),
   ("getset", "string.ParseGetSet", []),
-  ("incr", "string.ParseIncr", ["1"]),
-  ("incrby", "string.ParseIncrBy", ["1"]),
+  ("incr", "string.ParseIncr", [1]),
+  ("incrby", "string.ParseIncrBy", [1]),
   ("incrbyfloat", "string.ParseIncrByFloat", []),
   ("mget", "string.ParseMGet", []),
   ("mset", "string.ParseMSet", []),
-  ("psetex", "string.ParseSetEX", ["1"]),
+  ("psetex", "string.ParseSetEX", [1]),
   ("set", "string.ParseSet", []),
-  ("setex", "string.ParseSetEX", ["1000"]),
+  ("setex", "string.ParseSetEX", [1000]),
   ("setnx", "string.ParseSetNX", []),
   ("strlen", "string.ParseStrlen", []),
   ("hdel", "hash.ParseHDel", []),
